@@ -1,6 +1,8 @@
 SPECIFICATION Spec
 CONSTANTS CancelOnExit = TRUE
  FiredTimerCleared = TRUE
+ RestoreTimerFirst = TRUE
+ StartMode = "fresh"
  MaxNow = 4
  MaxLevel = 12
  MinStop = 0
